@@ -318,6 +318,14 @@ def main_check(pid, tier, seed):
 
 
 def write_evidence(pid, tier, seed, cov, assumptions, wall, nviol):
+    if os.environ.get("VERIF_EVIDENCE_DIR"):
+        # detection experiments on a deliberately broken tree (tools/run_seeded.py, tools/mutate.py) must not overwrite
+        # the evidence of the real tree
+        d = os.environ["VERIF_EVIDENCE_DIR"]
+        os.makedirs(d, exist_ok=True)
+        with open(os.path.join(d, "%s.json" % pid), "w") as f:
+            json.dump({"property_id": pid, "tier": tier, "seed": seed, "coverage": cov, "wall_s": wall, "violations": nviol}, f, default=str)
+        return
     os.makedirs(os.path.join(VERIF, "evidence"), exist_ok=True)
     ev = {"property_id": pid, "tier": tier, "seed": seed, "level": "model_checking",
           "coverage": cov, "assumptions": list(assumptions), "wall_s": round(wall, 2),
